@@ -67,6 +67,18 @@ class Sock:
             raise OSError(9, "Bad file descriptor")
         data = bytes(data)
         n = len(data)
+        self.nsend = getattr(self, "nsend", 0) + 1
+        fault = getattr(self, "send_faults", {}).get(self.nsend)
+        if fault is not None:
+            # a write fault: `fault[0]` bytes reach the wire, then the call fails (timeout or broken pipe)
+            part = data[:fault[0]]
+            if part:
+                self.log.append(("w", part))
+                self.written += part
+            self.log.append(("wfail", fault[1]))
+            if fault[1] == "timeout":
+                raise socket.timeout("timed out")
+            raise BrokenPipeError(32, "Broken pipe")
         if self.accept:
             n = max(1, min(n, self.accept.pop(0)))
         self.log.append(("w", data[:n]))
